@@ -38,7 +38,7 @@ func parseAckFrame(frame *AckFrame, b []byte, typ FrameType, ackDelayExponent ui
 	b = b[l:]
 
 	delayTime := time.Duration(delay*1<<ackDelayExponent) * time.Microsecond
-	if delayTime < 0 {
+	if delayTime < 0 || delay > (math.MaxInt64/uint64(time.Microsecond))>>ackDelayExponent {
 		// If the delay time overflows, set it to the maximum encode-able value.
 		delayTime = time.Duration(math.MaxInt64)
 	}
